@@ -54,7 +54,11 @@ type scenario struct {
 	ExtUp       int      `json:"extup,omitempty"`
 	MountDeclK  []int    `json:"mount_decline_k,omitempty"` // the registry declines the k-th cross-repository mount request it sees (202 + upload session), grants the others
 	MountDeclN  []string `json:"mount_decline_n,omitempty"` // ... declines the mount of these blobs
-	Cancel202   int      `json:"cancel202,omitempty"`       // registries answer 202 (not 204) to the DELETE of an upload session, which is what regclient takes for success
+	Cancel202   int      `json:"cancel202,omitempty"`
+	Callback    int      `json:"callback,omitempty"` // ImageWithCallback installed (always for layout targets: observation points)
+	Cache       int      `json:"cache,omitempty"`    // reg.WithCache: manifest / referrer cache of the reg scheme on
+	Chunked     int      `json:"chunked,omitempty"`  // WithBlobSize(chunk 96, max 128): blobs above 128 bytes go up in chunks (PATCH)
+	PageSize    int      `json:"pagesize,omitempty"` // registries page tag and referrer listings with this many entries       // registries answer 202 (not 204) to the DELETE of an upload session, which is what regclient takes for success
 	Opts        copyOpts `json:"opts"`
 	ByDigest    int      `json:"bydigest,omitempty"`
 	TgtByDigest int      `json:"tgtbydigest,omitempty"`
@@ -146,8 +150,9 @@ func (w *world) tagSym(tag string) string {
 	return "?" + tag
 }
 
-func featFor(headDigest, refAPI, mount int) simreg.Features {
+func featFor(headDigest, refAPI, mount, pageSize int) simreg.Features {
 	f := simreg.DefaultFeatures()
+	f.PageSize = pageSize
 	f.HeadDigest = headDigest != 0
 	f.ReferrersAPI = refAPI != 0
 	f.Mount = mount != 0
@@ -194,7 +199,10 @@ func newWorld(sc *scenario, scratch string) (*world, error) {
 		if !n.isMan() {
 			continue
 		}
-		fbTag := "sha256-" + n.hexd()
+		fbTag := n.alg() + "-" + n.hexd()
+		if len(n.hexd()) > 64 {
+			fbTag = n.alg() + "-" + n.hexd()[:64] // referrer.FallbackTag: "%.32s-%.64s"
+		}
 		w.tagSyms[fbTag] = "fb:" + n.Name
 		rs := sh.referrers(n.Name)
 		if len(rs) == 0 || sc.RefAPISrc != 0 {
@@ -237,7 +245,7 @@ func newWorld(sc *scenario, scratch string) (*world, error) {
 			w.refSrc = "ocidir://" + w.srcDir + "@" + sh.Nodes[sh.Root].Dig
 		}
 	} else {
-		w.srcHost = w.net.AddHost(hostA, featFor(sc.HeadDigest, sc.RefAPISrc, sc.Mount))
+		w.srcHost = w.net.AddHost(hostA, featFor(sc.HeadDigest, sc.RefAPISrc, sc.Mount, sc.PageSize))
 		w.srcRepo = srcRepo
 		w.srcHost.Repo(srcRepo)
 		for _, k := range w.order {
@@ -245,11 +253,7 @@ func newWorld(sc *scenario, scratch string) (*world, error) {
 			if strings.HasPrefix(k, "OLD") {
 				continue
 			}
-			if n.isMan() {
-				w.srcHost.PutManifest(srcRepo, "", n.MT, n.Raw)
-			} else {
-				w.srcHost.PutBlob(srcRepo, n.Raw)
-			}
+			seed(w.srcHost, srcRepo, n)
 		}
 		w.srcHost.Lock()
 		w.srcHost.Repos[srcRepo].Tags[srcTag] = sh.Nodes[sh.Root].Dig
@@ -258,8 +262,11 @@ func newWorld(sc *scenario, scratch string) (*world, error) {
 		}
 		w.srcHost.Unlock()
 		w.refSrc = hostA + "/" + srcRepo + ":" + srcTag
-		if sc.ByDigest != 0 {
+		switch sc.ByDigest {
+		case 1:
 			w.refSrc = hostA + "/" + srcRepo + "@" + sh.Nodes[sh.Root].Dig
+		case 2: // tag and digest
+			w.refSrc = hostA + "/" + srcRepo + ":" + srcTag + "@" + sh.Nodes[sh.Root].Dig
 		}
 	}
 
@@ -309,17 +316,12 @@ func newWorld(sc *scenario, scratch string) (*world, error) {
 		if w.sameReg() {
 			w.tgtHost = w.srcHost
 		} else {
-			w.tgtHost = w.net.AddHost(hostB, featFor(sc.HeadDigest, sc.RefAPITgt, sc.Mount))
+			w.tgtHost = w.net.AddHost(hostB, featFor(sc.HeadDigest, sc.RefAPITgt, sc.Mount, sc.PageSize))
 		}
 		w.tgtRepo = tgtRepo
 		w.tgtHost.Repo(tgtRepo)
 		for _, k := range sortedKeys(init) {
-			n := w.nodes[k]
-			if n.isMan() {
-				w.tgtHost.PutManifest(tgtRepo, "", n.MT, n.Raw)
-			} else {
-				w.tgtHost.PutBlob(tgtRepo, n.Raw)
-			}
+			seed(w.tgtHost, tgtRepo, w.nodes[k])
 		}
 		w.tgtHost.Lock()
 		for t, n := range tags {
@@ -361,17 +363,31 @@ func newWorld(sc *scenario, scratch string) (*world, error) {
 	return w, nil
 }
 
+// seed places object n into a repository of a model registry under the digest the source names it by.
+func seed(h *simreg.Host, repo string, n *node) {
+	h.Repo(repo)
+	h.Lock()
+	defer h.Unlock()
+	if n.isMan() {
+		h.Repos[repo].Manifests[n.Dig] = simreg.Manifest{MediaType: n.MT, Body: append([]byte{}, n.Raw...)}
+	} else {
+		h.Repos[repo].Blobs[n.Dig] = append([]byte{}, n.Raw...)
+	}
+}
+
 // writeLayout writes an OCI image layout by hand.
 func (w *world) writeLayout(dir string, present []string, tags map[string]string) error {
-	if err := os.MkdirAll(filepath.Join(dir, "blobs", "sha256"), 0o777); err != nil {
-		return err
+	for _, a := range []string{"sha256", "sha512"} {
+		if err := os.MkdirAll(filepath.Join(dir, "blobs", a), 0o777); err != nil {
+			return err
+		}
 	}
 	if err := os.WriteFile(filepath.Join(dir, "oci-layout"), []byte(`{"imageLayoutVersion":"1.0.0"}`), 0o666); err != nil {
 		return err
 	}
 	for _, k := range present {
 		n := w.nodes[k]
-		if err := os.WriteFile(filepath.Join(dir, "blobs", "sha256", n.hexd()), n.Raw, 0o666); err != nil {
+		if err := os.WriteFile(filepath.Join(dir, "blobs", n.alg(), n.hexd()), n.Raw, 0o666); err != nil {
 			return err
 		}
 	}
